@@ -523,9 +523,10 @@ static void do_turn(int flags, const char *why) {
     CHECK(!e.w_owed, "C18/writecb-missing", "end %c: output buffer dropped to %zu (<= low write watermark %zu) but no write callback ran by the end of the turn", 'A' + i, outlen(top(e)), e.wlow);
     if (pre.armed[i] && e.resume_armed && e.armed_turn < W->n_turns) {
       if (pre.src_avail[i] && !W->faults_armed && (e.enabled & EV_READ) && !e.rd_done) {
-        // known finding: a NON-deferred filter whose read callback drains the input inside the callback never looks at the
-        // rest of the underlying input again (the "data left, buffer full" hook is armed only after the callback returned)
-        bool filt_nd = e.nl > 1 && !(e.L[e.nl - 1].opts & BEV_OPT_DEFER_CALLBACKS);
+        // known finding: a filter arms its "data left below, input was full" hook only right after it processed something and
+        // found the input still full; if the (non-deferred) read callback already drained it, or if the input was full when the
+        // underlying data arrived (nothing processed), the rest of the underlying input is never looked at again after the drain
+        bool filt_nd = e.nl > 1;
         const char *key = filt_nd ? "C18/filter-no-resume-after-drain" : "C18/no-resume-after-drain";
         if (filt_nd && verif_known(key)) verif_known_skipped(key);
         else CHECK(in_total(e) > e.total_at_resume, key, "end %c: application drained the input below the high read watermark %zu, data was waiting, but nothing arrived during a whole loop turn (input %zu)", 'A' + i, e.rhigh, inlen(top(e)));
@@ -715,6 +716,7 @@ static int run_case(const uint8_t *data, size_t size, int prop) {
   for (int i = 0; i < 2; i++) if (closefd[i] >= 0) close(closefd[i]);
   if (w.listener >= 0) close(w.listener);
   int fds1 = count_open_fds();
+  if (!w.cap_hit)
   CHECK(fds0 == fds1, K("fd-leak"), "%d file descriptors open at the start of the case, %d at the end", fds0, fds1);
   if (!w.cap_hit)   // (a loop cut short by the harness' pass cap leaves finalizers queued; not judged)
   CHECK(sim_mem_live_blocks == live0, K("leak"), "library allocations outstanding after teardown: %lld", (long long)(sim_mem_live_blocks - live0));
